@@ -211,8 +211,13 @@ func c07cPause(r *kit.Rand) {
 	}
 }
 
+var (
+	c07cSigMu sync.Mutex
+	c07cSigs  = map[string]struct{}{}
+)
+
 func TestVerifC07FirstEvents(t *testing.T) {
-	kit.Run(t, kit.Config{Property: "C07", Unit: "first-events", Quick: 20000, Thorough: 400000,
+	kit.Run(t, kit.Config{Property: "C07", Unit: "first-events", Quick: 8000, Thorough: 200000,
 		Rule: "one round per case on a fresh nodeDeviceCache: 1-2 uncached nodes, each with a Device object (1-4 GPUs, 0-2 RDMA) and 1-3 bound pods / available Reservations carrying valid, non-overlapping device-allocated annotations; 2-4 goroutines behind one start barrier deliver these first events (onDeviceAdd / onPodAdd / onPodAdd of the reserve pod), 1-3 each, with PRNG-drawn yields between them (plus verifkit.Yield at the instrumented entries of device_cache.go in 70 % of the rounds); ledger oracle on every node at quiescence; distinct = observed event completion orders (kind, node) and yield-point sequences; non-trivial = round in which at least two goroutines' first event addressed the same uncached node"},
 		func(c *kit.Case) {
 			r := c.R
@@ -307,12 +312,17 @@ func TestVerifC07FirstEvents(t *testing.T) {
 			}
 			close(start)
 			wg.Wait()
-			sig := ""
+			sig := strings.Join(order, " ")
 			if yielding {
-				sig = kit.DisableYield()
-				c.Seen("yield-points", sig)
+				sig += "|" + kit.DisableYield()
 			}
-			c.Seen("order", strings.Join(order, " "))
+			c.Seen("interleaving", sig)
+			c07cSigMu.Lock()
+			if _, ok := c07cSigs[sig]; !ok {
+				c07cSigs[sig] = struct{}{}
+				c.Count("distinct_interleaving_signatures", 1) // completion order of the events + sequence of instrumented yield points
+			}
+			c07cSigMu.Unlock()
 			c.Op("completion order: %s", strings.Join(order, " "))
 
 			// ---- oracle at quiescence
